@@ -10,7 +10,7 @@
 EXTENDS Signer, Json
 
 CONSTANTS Cases,      \* set of [coin, shape, ht, mech]: what a behaviour starts from
-          Mode,       \* "ord" | "prod" | "lim": which passes are explored (below)
+          Mode,       \* "ord" | "prod" | "lim" | "front" | "kc" | "edit" | "edit_all" | "edit_long": which steps are explored (below)
           PruneNoop,  \* stop a behaviour after a pass that changes nothing
           WithPairs   \* "ord": also passes supplying the first and last listed keys together
 
@@ -93,7 +93,24 @@ FrontPasses == IF npass > 0 THEN {}
                ELSE {P(mech, K, Ins, case.ht, TRUE, {}, {}, TRUE, "none") :
                        mech \in {"create_signed", "wifs", "lookup"}, K \in SUBSET AllListed}
 
-RPasses == CASE Mode = "front" -> FrontPasses [] Mode = "ord" -> OrdPasses [] Mode = "prod" -> ProdPasses [] Mode = "lim" -> LimPasses
+\* "edit" / "edit_all": sign - the caller edits a field - sign again (- edit - sign again).  The first
+\* pass signs completely or partially (first keys only); then one field of the transaction is changed
+\* (a few boundary fields / every field of Signer!EditFields at every position); the next pass offers
+\* all keys or the first keys again.  Signatures whose hash type commits to the field are stale by
+\* then and have to be replaced; those that do not commit survive and their inputs stay untouched.
+InEdit == Mode \in {"edit", "edit_all", "edit_long"}
+\* exactly the keys each puzzle needs (its first m): nothing left to the signer's choice
+FirstM == UNION {{shape[i].keys[j] : j \in 1..shape[i].m} : i \in Ins}
+EditPasses == IF Len(acts) % 2 = 1 THEN {}
+              ELSE {Plain(case.mech, K, Ins, IF Len(acts) = 0 THEN case.ht ELSE case.ht2, TRUE, "none") :
+                      K \in {FirstM, FirstKeys} \cup (IF Mode = "edit" THEN {AllListed} ELSE {})}
+EditAlphabet == IF Mode \in {"edit", "edit_long"}
+                THEN {x \in [m : {"lock", "seq", "out_amt", "spent_amt"}, a : 0..2, b : {0}] :
+                        EditOK(x) /\ (x.m = "spent_amt" => x.a = case.pos)}
+                ELSE {x \in [m : EditFields, a : 0..2, b : {0}] : EditOK(x)}
+REdits == IF InEdit /\ Len(acts) % 2 = 1 THEN EditAlphabet ELSE {}
+
+RPasses == CASE InEdit -> EditPasses [] Mode = "front" -> FrontPasses [] Mode = "ord" -> OrdPasses [] Mode = "prod" -> ProdPasses [] Mode = "lim" -> LimPasses
              [] Mode = "kc" -> KcPasses
 
 \* what the harness compares: per input the signers with their signature bytes, and validity
@@ -110,7 +127,11 @@ RecOfAdd(a) == [mech |-> "kc_add", K |-> {}, I |-> {}, ht |-> 1, scr |-> a.S, re
 
 \* number of outputs of the transaction (concretization; only the "front" cases vary it)
 NOut == IF "nout" \in DOMAIN case THEN case.nout ELSE 2
-RInit == /\ case \in Cases /\ ShapeOK(case.coin, case.shape) /\ InitWith(case.coin, case.shape)
+\* an edit by the caller, printed in the shape of a pass: exactly one state is allowed after it
+RecOfEdit(x) == [mech |-> "edit", K |-> {}, I |-> {}, ht |-> 1, scr |-> FALSE, reg |-> {}, sec |-> {},
+                 fresh |-> FALSE, ic |-> "set", sup |-> {}, touch |-> {}, field |-> x.m, pos |-> x.a,
+                 allowed |-> {[s |-> signed', v |-> valid', bad |-> Cardinality({i \in Ins : ~valid'[i]}), raises |-> FALSE]}]
+RInit == /\ case \in Cases /\ ShapeOK(case.coin, case.shape) /\ InitWithN(case.coin, case.shape, NOut)
          /\ acts = <<>> /\ outs = <<>> /\ alive = TRUE
 RPass(p) == /\ alive /\ SignPass(p)
             /\ acts' = Append(acts, RecOf(p))
@@ -118,14 +139,20 @@ RPass(p) == /\ alive /\ SignPass(p)
             /\ alive' = (~PruneNoop \/ signed' # signed)
             /\ UNCHANGED case
             /\ PrintT(ToJson([k |-> "beh", coin |-> coin, shape |-> shape, acts |-> acts', outs |-> outs',
-                              nout |-> NOut, mode |-> Mode, flags |-> PolicyFlags(coin), sigbyte |-> SigByte(coin, p.ht)]))
+                              nout |-> NOut, cap |-> [i \in Ins |-> Need(i)], mode |-> Mode, flags |-> PolicyFlags(coin), sigbyte |-> SigByte(coin, p.ht)]))
 RKcAdd(a) == /\ alive /\ KcAdd(a.R, a.M, a.S)
              /\ acts' = Append(acts, RecOfAdd(a))
              /\ outs' = Append(outs, [signed |-> signed, valid |-> valid])
              /\ UNCHANGED <<case, alive>>
              /\ PrintT(ToJson([k |-> "beh", coin |-> coin, shape |-> shape, acts |-> acts', outs |-> outs',
-                               nout |-> NOut, mode |-> Mode, flags |-> PolicyFlags(coin), sigbyte |-> SigByte(coin, case.ht)]))
-RNext == (\E p \in RPasses : RPass(p)) \/ (\E a \in RKcAdds : RKcAdd(a))
+                               nout |-> NOut, cap |-> [i \in Ins |-> Need(i)], mode |-> Mode, flags |-> PolicyFlags(coin), sigbyte |-> SigByte(coin, case.ht)]))
+REdit(x) == /\ alive /\ Edit(x)
+            /\ acts' = Append(acts, RecOfEdit(x))
+            /\ outs' = Append(outs, [signed |-> signed', valid |-> valid'])
+            /\ UNCHANGED <<case, alive>>
+            /\ PrintT(ToJson([k |-> "beh", coin |-> coin, shape |-> shape, acts |-> acts', outs |-> outs',
+                              nout |-> NOut, cap |-> [i \in Ins |-> Need(i)], mode |-> Mode, flags |-> PolicyFlags(coin), sigbyte |-> SigByte(coin, case.ht)]))
+RNext == (\E p \in RPasses : RPass(p)) \/ (\E a \in RKcAdds : RKcAdd(a)) \/ (\E x \in REdits : REdit(x))
 RSpec == RInit /\ [][RNext]_rvars
 
 ----------------------------------------------------------------------------
@@ -176,9 +203,24 @@ FrontShapes(a) == IF a = 1 THEN <<D("p2pkh", 1, <<1>>, "c"), D("p2wpkh", 1, <<2>
                   ELSE <<D("ms_bare", 2, <<1, 2>>, "c"), D("p2pkh", 1, <<3>>, "c")>>
 FrontCases == {[coin |-> c, walk |-> 1, shape |-> FrontShapes(a), nout |-> n, ht |-> HTSeq[((a + n) % 6) + 1], mech |-> "wifs"] :
                  c \in {"BTC", "BCH", "LTC"}, a \in 1..3, n \in 1..4}
+\* edit cases: the puzzle kind under test (single key, or 2-of-3) at position pos of two inputs, next to a
+\* single-key input of another kind; two outputs
+EditShape(kd, f, pos, a) ==
+    LET X == IF kd \in SingleKinds THEN D(kd, 1, <<1>>, f) ELSE D(kd, 2, <<1, 2, 3>>, f)
+        Y == IF a % 2 = 0 THEN D("p2pkh", 1, <<4>>, "c") ELSE D("p2pk", 1, <<4>>, "u")
+    IN IF pos = 1 THEN <<X, Y>> ELSE <<Y, X>>
+KindSeq == <<"p2pkh", "p2wpkh", "p2sh_p2wpkh", "p2pk", "ms_bare", "ms_p2sh", "ms_p2wsh", "ms_p2sh_p2wsh">>
+EditCases(coins, hoffs, moffs, h2offs) ==
+    {[coin |-> c, walk |-> 1, pos |-> 1 + ((a + h) % 2), shape |-> EditShape(KindSeq[a], f, 1 + ((a + h) % 2), a),
+      ht |-> HTSeq[((a + h) % 6) + 1], ht2 |-> HTSeq[((a + h + h2) % 6) + 1], mech |-> MechSeq[((a + g) % 3) + 1]] :
+      c \in coins, a \in 1..8, f \in Forms, h \in hoffs, g \in moffs, h2 \in h2offs}
+\* quick: per kind and form two hash types (so that ALL, NONE, SINGLE and their ANYONECANPAY forms all occur), one mechanism each
+EditCasesQ == EditCases({"BTC"}, {0, 2}, {0}, {0}) \cup EditCases({"BCH"}, {2}, {1}, {0})
+EditCasesT == EditCases({"BTC", "BCH", "BTG", "LTC"}, 0..5, {0, 1, 2}, {0}) \cup EditCases({"BTC"}, {0, 3}, {0}, {1, 4})
+EditCasesLong == EditCases({"BTC"}, {1, 4}, {2}, {0}) \cup EditCases({"BCH"}, {1}, {0}, {0})
 \* one trivial behaviour per coin (the harness reads PolicyFlags(coin) from it)
 FlagCases == {[coin |-> c, walk |-> 1, shape |-> <<D("p2pkh", 1, <<1>>, "c")>>, ht |-> 1, mech |-> "lookup"] : c \in AllCoins}
-LimCasesQ == LimCases({"BTC"}, {<<15, 15>>, <<20, 20>>, <<9, 12>>, <<7, 7>>, <<8, 15>>, <<2, 16>>}, 3)
+LimCasesQ == LimCases({"BTC"}, {<<15, 15>>, <<20, 20>>, <<9, 12>>, <<7, 7>>, <<8, 15>>, <<2, 16>>}, 2)
              \cup LimCases({"BCH", "BTG"}, {<<15, 15>>, <<9, 12>>}, 2)
 LimCasesT == LimCases({"BTC"}, LimMN, 4) \cup LimCases({"BCH", "BTG", "LTC"}, {<<15, 15>>, <<9, 12>>, <<20, 20>>}, 2)
 =============================================================================
